@@ -67,7 +67,7 @@ func (e *engine) excuse(o *obligation, kf *knownFinding) bool {
 	if fn == nil {
 		return false
 	}
-	vc := e.vcCache[fn]
+	vc := e.vcCache[vcKey{fn, e.layerFor(fn, kf.Property)}]
 	if vc == nil {
 		return false
 	}
